@@ -341,8 +341,9 @@ theorem C08_cli_no_fs_ops_with_listing_flags (env : Environ) (argv : List String
   obtain ⟨steps, hs, _, _, _, _, hmode⟩ := C08_cli_mode_of_flags argv ns hp
   refine ⟨steps, hs, ?_⟩
   have hgen : m = .generate := by
-    by_contra hne
-    exact hops (C08_no_fs_ops_unless_generating m a es hne)
+    by_cases hne : m = .generate
+    · exact hne
+    · exact absurd (C08_no_fs_ops_unless_generating m a es hne) hops
   rw [hm] at hmode
   simp only [Option.some.injEq] at hmode
   rw [hgen] at hmode
@@ -383,6 +384,40 @@ theorem C08_runner_calls_as_modelled :
     runChain = [("list_outputs", "_list_outputs_only"), ("list_inputs", "_list_inputs_only"),
       ("list_configuration", "_list_configuration_only")] ∧ runElse = "_generate" := by
   decide
+
+/-! Non-vacuity of the command-line theorems (kernel-evaluated on the generated table). -/
+
+def nsOf : Outcome → Namespace
+  | .ok ns => ns
+  | _ => []
+
+def cEnv : Environ := ⟨table, "/pkg/nunavut/lang", fun _ => []⟩
+
+/-- Accepted command lines: a cluster `-vd`, the abbreviation `--no-o`, `-lc` (exact option string of `--list-configuration`,
+not `-l c`), `-lcpp` (`-l` with a glued value); the mode the runner takes. -/
+example :
+    (nsOf (parseArgv ["-vd", "--no-o", "ns"])).lookup "dry_run" = some (.bool true) ∧
+    (nsOf (parseArgv ["-vd", "--no-o", "ns"])).lookup "no_overwrite" = some (.bool true) ∧
+    (nsOf (parseArgv ["-vd", "--no-o", "ns"])).lookup "root_namespace" = some (.sc (.str "ns")) ∧
+    modeOfNs (nsOf (parseArgv ["-vd", "--no-o", "ns"])) = some .dryRun ∧
+    modeOfNs (nsOf (parseArgv ["-lc", "--dry-run"])) = some .listConfiguration ∧
+    modeOfNs (nsOf (parseArgv ["--list-inputs", "-lc", "--list-outputs"])) = some .listOutputs ∧
+    (nsOf (parseArgv ["-lcpp"])).lookup "target_language" = some (.sc (.str "cpp")) ∧
+    modeOfNs (nsOf (parseArgv ["-lcpp"])) = some .generate := by decide
+
+/-- Rejected command lines: an ambiguous abbreviation, the inter-argument rule, a left-over string, a missing value, a value
+outside `choices`; `--help` ends the parse before the error behind it. -/
+example :
+    parseArgv ["--lis"] = .error (.ambiguous "--lis") ∧
+    parseArgv ["-pod", "--generate-support", "always"] = .error .logic ∧
+    parseArgv ["a", "b"] = .error (.unrecognized ["b"]) ∧
+    parseArgv ["--outdir", "--dry-run"] = .error (.expectedOneArg "--outdir/-O") ∧
+    parseArgv ["--generate-support", "alway"] = .error (.invalidChoice "--generate-support") ∧
+    parseArgv ["--help", "--outdir"] = .exit0 "help" := by decide
+
+def ranAs : MainOut → Option (Mode × Args × Run)
+  | .ran m a r => some (m, a, r)
+  | _ => none
 
 end cli
 
@@ -487,6 +522,13 @@ def wLinkedDir : List TemplateFile :=
 example :
     (run .listInputs { wArgs with genSupport := .never, templates := some wLinkedDir } wEntries).inputs =
       ["/t/Any.j2", "/t/header.j2", "/t/parts/header.j2", "/t/parts/deep/header.j2", "/shared/license.j2", "/ns/app/Use.1.0.dsdl"] := by
+  decide
+
+/-- `cliMain` on a whole command line: the run of the decision model it denotes. -/
+example :
+    ((NunavutVerif.Cli.ranAs (NunavutVerif.CliParse.cliMain cEnv ["-l", "c", "--list-outputs", "-O", "out", "ns"] wEntries)).map
+      fun x => (x.1, x.2.1.outdir, x.2.2.ops, x.2.2.outputs)) =
+    some (.listOutputs, ["out"], [], [["out", "app", "Use_1_0.h"], ["out", "nunavut", "support", "serialization.h"]]) := by
   decide
 
 end witnesses
